@@ -139,6 +139,8 @@ func propC06(c *Ctx, r *Report) {
 	// considered exactly once: the holding window is [last rated height, executing height), shared with C07
 	ruleHoldingWindow(c, r, "C06-R7/holding-window")
 	ruleHeightPlumbing(c, r, "C06-R8/height-plumbing")
+	// the holding window advances only with a rated block: held batches are executed iff the block has winners
+	winnerTable(c, r, newEraCtx(c, r), "C06-R9/winners-gate-execution")
 	r.rule("C06-R6/settle-once", 1, "held PEG requests are settled once")
 	for _, ci := range findCalls(hold, "node.Pegnetd.recordPegnetRequests") {
 		if l := innermostLoop(hold, ci.Block()); l != nil {
